@@ -2,8 +2,9 @@ package gosym
 
 import (
 	"fmt"
-	"os"
 	"go/types"
+	"os"
+	"runtime/debug"
 	"sort"
 	"strings"
 	"time"
@@ -15,7 +16,12 @@ type unsupportedErr struct{ msg string }
 
 func (u unsupportedErr) Error() string { return "UNSUPPORTED: " + u.msg }
 
-func unsupported(msg string) unsupportedErr { return unsupportedErr{msg} }
+func unsupported(msg string) unsupportedErr {
+	if os.Getenv("VERIF_STACK") != "" {
+		fmt.Fprintf(os.Stderr, "UNSUPPORTED %s\n%s\n", msg, debug.Stack())
+	}
+	return unsupportedErr{msg}
+}
 
 type unwindErr struct{ msg string }
 
@@ -54,58 +60,59 @@ type Finding struct {
 }
 
 type Options struct {
-	MaxStates     int
-	MaxInstrs     int
-	MaxBackedges  int
-	QueryMs       int
-	Zone          int // 0 UTC, 1 fixed offset, 2 two-interval
-	Seed          int64
-	NoForkCheck   bool
-	NoMerge       bool
-	Trace         bool
+	MaxStates      int
+	MaxInstrs      int
+	MaxBackedges   int
+	QueryMs        int
+	Zone           int // 0 UTC, 1 fixed offset, 2 two-interval
+	Seed           int64
+	NoForkCheck    bool
+	NoMerge        bool
+	Trace          bool
 	ValidateModels int
-	NoSlice       bool
-	MergeDebug    bool
-	JSONStrict    bool
-	DeadlineS     int
-	OpaqueNumbers bool
+	NoSlice        bool
+	MergeDebug     bool
+	JSONStrict     bool
+	DeadlineS      int
+	OpaqueNumbers  bool
 }
 
 // Engine: one per harness run.
 type Engine struct {
-	prog      *ssa.Program
-	tc        *TermCtx
-	sol       *Solver
-	opt       Options
-	globals   map[*ssa.Global]ObjID
-	base      map[ObjID]Value
-	nextGlob  ObjID
-	fnInfos   map[*ssa.Function]*fnInfo
-	stats     Stats
-	findings  []Finding
-	harness   string
-	timeUnder types.Type
-	storeHook func(s *State, p PtrV)
-	funcsSeen map[string]bool // repo functions executed
-	stubsUsed map[string]bool
-	assumes   []string
-	reachAll  map[string]bool // labels seen in harness code paths
-	reachSat  map[string]bool
-	pathModels []PathModel // models of complete harness paths for translator validation
-	errSeq    int
-	inInit    bool
-	zone      *zoneModel
-	repoPrefix string
-	deadline  time.Time
-	initNext  ObjID
-	extra     map[string]interface{}
-	varCache  map[*Term][]uint32
-	viewCopies map[ObjID]bool
-	funIDs    map[string]uint32
-	zv        *zoneView
-	summaries map[string]bool
+	prog        *ssa.Program
+	tc          *TermCtx
+	sol         *Solver
+	opt         Options
+	globals     map[*ssa.Global]ObjID
+	base        map[ObjID]Value
+	nextGlob    ObjID
+	fnInfos     map[*ssa.Function]*fnInfo
+	stats       Stats
+	findings    []Finding
+	harness     string
+	timeUnder   types.Type
+	storeHook   func(s *State, p PtrV)
+	funcsSeen   map[string]bool // repo functions executed
+	stubsUsed   map[string]bool
+	assumes     []string
+	reachAll    map[string]bool // labels seen in harness code paths
+	reachSat    map[string]bool
+	pathModels  []PathModel // models of complete harness paths for translator validation
+	errSeq      int
+	inInit      bool
+	zone        *zoneModel
+	repoPrefix  string
+	deadline    time.Time
+	initNext    ObjID
+	extra       map[string]interface{}
+	varCache    map[*Term][]uint32
+	viewCopies  map[ObjID]bool
+	funIDs      map[string]uint32
+	zv          *zoneView
+	summaries   map[string]bool
+	lazySpawn   bool // verifLazySpawn: goroutines start when the main thread blocks
 	timedSleeps bool // time.Sleep in a goroutine parks it on a timer (verifTimedSleeps)
-	zoneTable []ZoneRow
+	zoneTable   []ZoneRow
 }
 
 type PathModel struct {
@@ -129,25 +136,25 @@ func NewEngine(prog *ssa.Program, opt Options, harness string) *Engine {
 	}
 	tc := NewTermCtx()
 	e := &Engine{
-		prog:      prog,
-		tc:        tc,
-		sol:       NewSolver(tc, opt.QueryMs),
-		opt:       opt,
-		globals:   map[*ssa.Global]ObjID{},
-		base:      map[ObjID]Value{},
-		nextGlob:  1,
-		fnInfos:   map[*ssa.Function]*fnInfo{},
-		harness:   harness,
-		funcsSeen: map[string]bool{},
-		stubsUsed: map[string]bool{},
-		reachAll:  map[string]bool{},
-		reachSat:  map[string]bool{},
+		prog:       prog,
+		tc:         tc,
+		sol:        NewSolver(tc, opt.QueryMs),
+		opt:        opt,
+		globals:    map[*ssa.Global]ObjID{},
+		base:       map[ObjID]Value{},
+		nextGlob:   1,
+		fnInfos:    map[*ssa.Function]*fnInfo{},
+		harness:    harness,
+		funcsSeen:  map[string]bool{},
+		stubsUsed:  map[string]bool{},
+		reachAll:   map[string]bool{},
+		reachSat:   map[string]bool{},
 		repoPrefix: "github.com/uhppoted/uhppote-core",
-		extra:     map[string]interface{}{},
-		varCache:  map[*Term][]uint32{},
+		extra:      map[string]interface{}{},
+		varCache:   map[*Term][]uint32{},
 		viewCopies: map[ObjID]bool{},
-		funIDs:    map[string]uint32{},
-		summaries: map[string]bool{},
+		funIDs:     map[string]uint32{},
+		summaries:  map[string]bool{},
 	}
 	e.sol.Harness = harness
 	e.sol.Incremental = os.Getenv("VERIF_INCREMENTAL") != "0"
@@ -165,10 +172,10 @@ func NewEngine(prog *ssa.Program, opt Options, harness string) *Engine {
 
 func (e *Engine) Close() { e.sol.Close() }
 
-func (e *Engine) Stats() Stats          { return e.stats }
-func (e *Engine) Findings() []Finding   { return e.findings }
-func (e *Engine) Solver() *Solver       { return e.sol }
-func (e *Engine) TermCtx() *TermCtx     { return e.tc }
+func (e *Engine) Stats() Stats            { return e.stats }
+func (e *Engine) Findings() []Finding     { return e.findings }
+func (e *Engine) Solver() *Solver         { return e.sol }
+func (e *Engine) TermCtx() *TermCtx       { return e.tc }
 func (e *Engine) PathModels() []PathModel { return e.pathModels }
 func (e *Engine) FuncsSeen() []string {
 	var out []string
@@ -186,7 +193,7 @@ func (e *Engine) StubsUsed() []string {
 	sort.Strings(out)
 	return out
 }
-func (e *Engine) Assumes() []string { return e.assumes }
+func (e *Engine) Assumes() []string                 { return e.assumes }
 func (e *Engine) Reach() (all, sat map[string]bool) { return e.reachAll, e.reachSat }
 
 // globalObj returns the heap object id holding global g (allocated lazily in the base heap).
